@@ -59,7 +59,13 @@ class Contract:
         self.explicit_cases = None
         self.lemma_fn = None
         self.modes = ['R']
+        self.defines_ = []
         REGISTRY.append(self)
+
+    def define(self, name, text):
+        """name bound (after the body ran) to the value of a spec expression; usable in ensures."""
+        self.defines_.append((name, text))
+        return self
 
     # --- declaration API -------------------------------------------------------
     def arg(self, name, *alts):
@@ -189,6 +195,7 @@ class Builder:
         self.I = interp
         self.case = case
         self.inputs = {}        # name -> symbolic scalar (for models / replay)
+        self.provided = []      # (interface, object) pairs bound in bardolph.lib.injection
 
     def sym(self, kind, name):
         v = self.I.fresh(kind, name)
@@ -439,6 +446,20 @@ def install_spec_fns(I):
             return mk(z3.Select(s.m, to_term(i, 'int')), 'bool')
         raise TypeError('select on %r' % (s,))
 
+    @reg('hue_same')
+    def _hue_same(I_, a, k):
+        x, y = to_term(a[0], 'int'), to_term(a[1], 'int')
+        return mk(z3.Or(x == y, z3.And(x == 0, y == 65535), z3.And(x == 65535, y == 0)), 'bool')
+
+    @reg('unit_converter')
+    def _unit_converter(I_, a, k):
+        """the documented conversion table (docs/language.rst 'units'): None for same mode."""
+        u = I_.load_module('bardolph.controller.units')
+        s_, d_ = a[0].name, a[1].name
+        if s_ == d_:
+            return None
+        return u.ns['%s_to_%s' % (s_.lower(), d_.lower())]
+
     @reg('typename')
     def _typename(I_, a, k):
         return I_.typename(a[0])
@@ -446,6 +467,8 @@ def install_spec_fns(I):
 
 # ------------------------------------------------------------------------------ resolving the function
 def module_name_of(path):
+    if path.startswith('stdlib:'):
+        return path[7:]
     p = path[:-3] if path.endswith('.py') else path
     return p.replace('/', '.')
 
@@ -569,6 +592,7 @@ def verify_contract(I, c, timeout_ms=10000):
 
             def thunk():
                 b = Builder(I, case)
+                I.ghost['contract_name'] = c.name
                 if c.setup_fn is not None:
                     args = c.setup_fn(b, case)
                 else:
@@ -612,9 +636,21 @@ def verify_contract(I, c, timeout_ms=10000):
                                      info={'clause': text, 'case': label})
                     return 'raised'
                 penv.vars['result'] = result
+                for dname, dtext in c.defines_:
+                    try:
+                        penv.vars[dname] = I.eval_spec_value(dtext, penv)
+                    except PyRaise as pr:
+                        I.oblige('%s::post.define-%s' % (c.name, dname), False, kind='post',
+                                 info={'clause': dtext, 'case': label, 'exception': repr(pr.exc)})
+                        return 'returned'
                 for cid, text, _sv in c.ensures_:
-                    I.oblige('%s::post.%s' % (c.name, cid), I.eval_spec(text, penv), kind='post',
-                             info={'clause': text, 'case': label})
+                    inf = {'clause': text, 'case': label}
+                    try:
+                        goal = I.eval_spec(text, penv)
+                    except PyRaise as pr:
+                        goal = False
+                        inf['clause_raised'] = repr(pr.exc)
+                    I.oblige('%s::post.%s' % (c.name, cid), goal, kind='post', info=inf)
                 return 'returned'
 
             outs = I.explore(thunk)
